@@ -1,11 +1,32 @@
 (* Property C01 — every backend computes the defined PSSM score at every position.
    This file contains only the property theorems (closed by lemmas of ScoreProofs /
-   SimdProofs / F32Proofs), statement pins and non-vacuity examples.
+   SimdProofs / Sse2Proofs / F32Proofs / CheckProofs / StripeBridge), statement pins and
+   non-vacuity examples.
 
-   Notation: L = length s, M = length pssm, R = seq_R C L = ceil(L / C), N = K - 1. *)
-From Coq Require Import List Arith Bool Lia.
-From LMBase Require Import Res ListX.
-From LMScore Require Import ScoreModel ScoreProofs.
+   Notation: L = length s, M = length pssm, R = seq_R C L = ceil(L / C), N = K - 1.
+     Striped C N s q  :=  len q = L, rows q = R + wrap q, every row has C symbols,
+                          cell r c = nth (c*R + r) s N for all r < R + wrap q, c < C
+     pssm_wf K pssm   :=  every row of the scoring matrix has K cells
+     sc_wf C old      :=  every row of the (reused) score buffer has C cells
+     score_def add zero N pssm s i := fold_left add [pssm[j][nth (i+j) s N] | j < M] zero
+
+   Contents
+     1. generic pipeline, any carrier and addition: cell, unstripe/count, sub-range,
+        score_position, Index
+     2. AVX2 permute / gather kernels, AVX2 wrapper, SSE2 kernel, dispatcher = generic
+        (every row range, every buffer content, every padding content)
+     3. binary32 corollaries on striped sequences: full scans, sub-ranges, L < M, guards,
+        16- and 32-column layouts
+     4. IEEE-754 facts from Flocq: -inf absorbs, summation error bound, no-overflow condition
+     5. the checker behind PROPFAIL: soundness, completeness on the model, end-to-end statement
+     6. composition with the striping model of C04 (any call history)
+     7. statement pins, non-vacuity examples (README data) *)
+From Coq Require Import List Arith Bool Lia ZArith Reals.
+From Flocq Require Import Core BinarySingleNaN.
+From LMBase Require Import Res ListX IEEE.
+From LMScore Require Import ScoreModel SimdModel GenAvx2 ScoreCheck ScoreProofs SimdProofs Sse2Proofs
+     F32Proofs CheckProofs ReadmeExample StripeBridge.
+From LMStripe Require NetModel StripeModel StripeAvx2.
 Import ListNotations.
 
 (* Every cell (r, c) of the generic pipeline's full scan is the defined score of
@@ -109,3 +130,514 @@ Proof.
   apply (score_position_striped add zero C K); auto.
   destruct (seq_R_bound C (length s) HC) as [HB _]. lia.
 Qed.
+
+(* Index<usize> of the score matrix: index i < R*C reads the defined score of position i
+   (for i > L - M these are the padding cells, scored with wildcards past the end of the
+   sequence); an index >= R*C panics. *)
+Theorem C01_score_index :
+  forall (T : Type) (add : T -> T -> T) (zero : T) (C K : nat)
+         (pssm : list (list T)) (s : list nat) (q : sseq) (i : nat),
+    0 < C -> 0 < K -> Forall (fun x => x < K) s -> pssm_wf K pssm ->
+    Striped C (K - 1) s q ->
+    1 <= length pssm -> length pssm - 1 <= sq_wrap q -> length pssm <= length s ->
+    (i < seq_R C (length s) * C ->
+     rbind (generic_score add zero C pssm q) (fun sc => sc_get sc i) =
+     Ok (score_def add zero (K - 1) pssm s i)) /\
+    (seq_R C (length s) * C <= i ->
+     is_panic (rbind (generic_score add zero C pssm q) (fun sc => sc_get sc i)) = true).
+Proof.
+  intros T add zero C K pssm s q i HC HK Hs Hp Hst HM Hw HL.
+  rewrite (generic_score_striped add zero C K pssm s q HC HK Hs Hp Hst HM Hw HL). cbn [rbind].
+  split; intros Hi.
+  - apply (sc_get_full add zero C K); auto.
+  - apply (sc_get_full_out add zero C K); auto.
+Qed.
+
+(* ====================================================================== *)
+(* SIMD kernels and the dispatcher.
+
+   [res_equiv x y]: both are [Ok] with the same score matrix and max_index, or both
+   panic (the generic kernel panics by a slice index, the SIMD wrappers by their
+   assertion).  Every statement is for ALL row ranges a..b (inside the sequence
+   rows, reaching into or past the look-ahead rows, empty, inverted), ALL previous
+   contents [old] of the reused score buffer and ALL contents [pads] of the padding
+   of the aligned scoring-matrix rows.  The lane tables ([avx2_*_consts]) and the
+   dispatcher's arm table ([dispatch_score_f32]) are regenerated from avx2.rs /
+   dispatch.rs by the translator on every run; [avx2_layout_ok] is re-evaluated
+   here by computation. *)
+
+Theorem C01_score_avx2_permute_eq :
+  forall (T : Type) (add : T -> T -> T) (zero : T) (K : nat)
+         (pssm : list (list T)) (pads : nat -> list T) (s : list nat) (q : sseq)
+         (a b : nat) (old : sscores T),
+    0 < K -> K <= 8 -> Forall (fun x => x < K) s -> pssm_wf K pssm ->
+    Striped 32 (K - 1) s q -> sc_wf 32 old ->
+    1 <= length pssm -> length pssm - 1 <= sq_wrap q ->
+    res_equiv (avx2_permute_rows_into add zero avx2_permute_consts pssm pads q a b old)
+              (generic_rows_into add zero 32 pssm q a b old).
+Proof.
+  intros T add zero K pssm pads s q a b old HK HK8 Hs Hp Hst Hw HM Hwrap.
+  apply avx2_permute_equiv with (K := K); auto; try (vm_compute; reflexivity).
+  eapply striped_mat_wf; eauto.
+Qed.
+
+Theorem C01_score_avx2_gather_eq :
+  forall (T : Type) (add : T -> T -> T) (zero : T) (K : nat)
+         (pssm : list (list T)) (pads : nat -> list T) (s : list nat) (q : sseq)
+         (a b : nat) (old : sscores T),
+    0 < K -> Forall (fun x => x < K) s -> pssm_wf K pssm ->
+    Striped 32 (K - 1) s q -> sc_wf 32 old ->
+    1 <= length pssm -> length pssm - 1 <= sq_wrap q ->
+    res_equiv (avx2_gather_rows_into add zero avx2_gather_consts pssm pads q a b old)
+              (generic_rows_into add zero 32 pssm q a b old).
+Proof.
+  intros T add zero K pssm pads s q a b old HK Hs Hp Hst Hw HM Hwrap.
+  apply avx2_gather_equiv with (K := K); auto; try (vm_compute; reflexivity).
+  eapply striped_mat_wf; eauto.
+Qed.
+
+(* Avx2::score_f32_rows_into: permute kernel for K <= 8 (DNA), gather kernel otherwise (protein) *)
+Theorem C01_score_avx2_eq :
+  forall (T : Type) (add : T -> T -> T) (zero : T) (K : nat)
+         (pssm : list (list T)) (pads : nat -> list T) (s : list nat) (q : sseq)
+         (a b : nat) (old : sscores T),
+    0 < K -> Forall (fun x => x < K) s -> pssm_wf K pssm ->
+    Striped 32 (K - 1) s q -> sc_wf 32 old ->
+    1 <= length pssm -> length pssm - 1 <= sq_wrap q ->
+    res_equiv (avx2_rows_into add zero avx2_permute_consts avx2_gather_consts K pssm pads q a b old)
+              (generic_rows_into add zero 32 pssm q a b old).
+Proof.
+  intros T add zero K pssm pads s q a b old HK Hs Hp Hst Hw HM Hwrap.
+  apply avx2_equiv; auto; try (vm_compute; reflexivity).
+  eapply striped_mat_wf; eauto.
+Qed.
+
+(* SSE2 (any number of columns that is a multiple of 16).  The kernel adds
+   lut_k & (x == k) for EVERY symbol k, i.e. K - 1 extra additions of +0.0 per
+   matrix row: it equals the generic kernel for every addition such that
+   x + zero = x on a class P of values that contains zero and is closed under
+   x + _ (IEEE: P = "not -0.0", instantiated below). *)
+Theorem C01_score_sse2_eq :
+  forall (T : Type) (add : T -> T -> T) (zero : T) (P : T -> Prop) (C K : nat)
+         (pssm : list (list T)) (s : list nat) (q : sseq) (a b : nat) (old : sscores T),
+    P zero -> (forall x y, P x -> P (add x y)) -> (forall x, P x -> add x zero = x) ->
+    0 < C -> C mod 16 = 0 ->
+    0 < K -> Forall (fun x => x < K) s -> pssm_wf K pssm ->
+    Striped C (K - 1) s q -> sc_wf C old ->
+    1 <= length pssm -> length pssm - 1 <= sq_wrap q ->
+    res_equiv (sse2_rows_into add zero C pssm q a b old)
+              (generic_rows_into add zero C pssm q a b old).
+Proof.
+  intros T add zero P C K pssm s q a b old P0 Pa Pz HC HC16 HK Hs Hp Hst Hw HM Hwrap.
+  apply (sse2_equiv add zero C K P); auto.
+  eapply striped_mat_wf; eauto.
+Qed.
+
+(* binary32: the two facts about IEEE addition are theorems of Flocq's model *)
+Theorem C01_f32_add_zero_facts :
+  not_nzero F32.zero /\
+  (forall x y, not_nzero x -> not_nzero (F32.add x y)) /\
+  (forall x, not_nzero x -> F32.add x F32.zero = x).
+Proof.
+  split; [exact f32_zero_not_nzero|]. split; [exact f32_add_not_nzero|exact f32_add_zero].
+Qed.
+
+Theorem C01_score_sse2_eq_f32 :
+  forall (C K : nat) (pssm : list (list f32)) (s : list nat) (q : sseq) (a b : nat) (old : sscores f32),
+    0 < C -> C mod 16 = 0 ->
+    0 < K -> Forall (fun x => x < K) s -> pssm_wf K pssm ->
+    Striped C (K - 1) s q -> sc_wf C old ->
+    1 <= length pssm -> length pssm - 1 <= sq_wrap q ->
+    res_equiv (sse2_rows_into F32.add F32.zero C pssm q a b old)
+              (generic_rows_into F32.add F32.zero C pssm q a b old).
+Proof.
+  intros C K pssm s q a b old HC HC16 HK Hs Hp Hst Hw HM Hwrap.
+  apply (C01_score_sse2_eq f32 F32.add F32.zero not_nzero C K pssm s q a b old
+           f32_zero_not_nzero f32_add_not_nzero f32_add_zero); auto.
+Qed.
+
+(* the runtime dispatcher, for every arm (and, in fact, every arm -> kernel table) *)
+Theorem C01_score_dispatch_eq :
+  forall (T : Type) (add : T -> T -> T) (zero : T) (P : T -> Prop) (K : nat)
+         (pssm : list (list T)) (pads : nat -> list T) (s : list nat) (q : sseq)
+         (ar : arm) (a b : nat) (old : sscores T),
+    P zero -> (forall x y, P x -> P (add x y)) -> (forall x, P x -> add x zero = x) ->
+    0 < K -> Forall (fun x => x < K) s -> pssm_wf K pssm ->
+    Striped 32 (K - 1) s q -> sc_wf 32 old ->
+    1 <= length pssm -> length pssm - 1 <= sq_wrap q ->
+    res_equiv (dispatch_rows_into add zero dispatch_score_f32 avx2_permute_consts avx2_gather_consts
+                                  K pssm pads ar q a b old)
+              (generic_rows_into add zero 32 pssm q a b old).
+Proof.
+  intros T add zero P K pssm pads s q ar a b old P0 Pa Pz HK Hs Hp Hst Hw HM Hwrap.
+  apply (dispatch_equiv add zero K P); auto; try (vm_compute; reflexivity).
+  eapply striped_mat_wf; eauto.
+Qed.
+
+Theorem C01_score_dispatch_eq_f32 :
+  forall (K : nat) (pssm : list (list f32)) (pads : nat -> list f32) (s : list nat) (q : sseq)
+         (ar : arm) (a b : nat) (old : sscores f32),
+    0 < K -> Forall (fun x => x < K) s -> pssm_wf K pssm ->
+    Striped 32 (K - 1) s q -> sc_wf 32 old ->
+    1 <= length pssm -> length pssm - 1 <= sq_wrap q ->
+    res_equiv (dispatch_rows_into F32.add F32.zero dispatch_score_f32 avx2_permute_consts
+                                  avx2_gather_consts K pssm pads ar q a b old)
+              (generic_rows_into F32.add F32.zero 32 pssm q a b old).
+Proof.
+  intros K pssm pads s q ar a b old HK Hs Hp Hst Hw HM Hwrap.
+  apply (C01_score_dispatch_eq f32 F32.add F32.zero not_nzero K pssm pads s q ar a b old
+           f32_zero_not_nzero f32_add_not_nzero f32_add_zero); auto.
+Qed.
+
+(* ====================================================================== *)
+(* What the equalities give on a configured striped sequence (binary32). *)
+
+(* full scans: AVX2, SSE2 and every arm of the dispatcher return the score matrix of
+   the generic pipeline, whose cell (r, c) is the defined score of position c*R + r *)
+Theorem C01_backends_full_scan :
+  forall (K : nat) (pssm : list (list f32)) (pads : nat -> list f32) (s : list nat) (q : sseq) (ar : arm),
+    0 < K -> Forall (fun x => x < K) s -> pssm_wf K pssm ->
+    Striped 32 (K - 1) s q ->
+    1 <= length pssm -> length pssm - 1 <= sq_wrap q -> length pssm <= length s ->
+    exists sc,
+      generic_score F32.add F32.zero 32 pssm q = Ok sc /\
+      score_with (avx2_rows_into F32.add F32.zero avx2_permute_consts avx2_gather_consts K pssm pads) q = Ok sc /\
+      score_with (sse2_rows_into F32.add F32.zero 32 pssm) q = Ok sc /\
+      score_with (dispatch_rows_into F32.add F32.zero dispatch_score_f32 avx2_permute_consts
+                                     avx2_gather_consts K pssm pads ar) q = Ok sc /\
+      sc_max sc = length s + 1 - length pssm /\
+      forall r c, r < seq_R 32 (length s) -> c < 32 ->
+        nth c (nth r (sc_mat sc) []) F32.zero =
+        score_def F32.add F32.zero (K - 1) pssm s (c * seq_R 32 (length s) + r).
+Proof.
+  intros K pssm pads s q ar HK Hs Hp Hst HM Hwrap HL.
+  pose proof (generic_score_striped F32.add F32.zero 32 K pssm s q ltac:(lia) HK Hs Hp Hst HM Hwrap HL) as E.
+  eexists. split; [exact E|].
+  split; [|split; [|split]].
+  - apply (score_with_eq_generic F32.add F32.zero 32 _ pssm q); auto. intros a b.
+    apply (C01_score_avx2_eq f32 F32.add F32.zero K pssm pads s q a b sc_empty); auto. apply sc_wf_empty.
+  - apply (score_with_eq_generic F32.add F32.zero 32 _ pssm q); auto. intros a b.
+    apply (C01_score_sse2_eq_f32 32 K pssm s q a b sc_empty); auto. lia. apply sc_wf_empty.
+  - apply (score_with_eq_generic F32.add F32.zero 32 _ pssm q); auto. intros a b.
+    apply (C01_score_dispatch_eq_f32 K pssm pads s q ar a b sc_empty); auto. apply sc_wf_empty.
+  - cbn [sc_max sc_mat]. split; [reflexivity|]. intros r c Hr Hc.
+    apply (full_mat_cell F32.add F32.zero 32 K pssm s r c Hr Hc).
+Qed.
+
+(* sub-ranges, per backend: a call on rows a..b (a < b <= R) of any backend returns rows
+   a..b of the full scan and the same max_index, whatever the buffer held before *)
+Theorem C01_backends_sub_range :
+  forall (K : nat) (pssm : list (list f32)) (pads : nat -> list f32) (s : list nat) (q : sseq) (ar : arm)
+         (a b : nat) (old : sscores f32),
+    0 < K -> Forall (fun x => x < K) s -> pssm_wf K pssm ->
+    Striped 32 (K - 1) s q -> sc_wf 32 old ->
+    1 <= length pssm -> length pssm - 1 <= sq_wrap q -> length pssm <= length s ->
+    a < b -> b <= seq_R 32 (length s) ->
+    exists full sub,
+      generic_score F32.add F32.zero 32 pssm q = Ok full /\
+      sc_mat sub = firstn (b - a) (skipn a (sc_mat full)) /\ sc_max sub = sc_max full /\
+      generic_rows_into F32.add F32.zero 32 pssm q a b old = Ok sub /\
+      avx2_rows_into F32.add F32.zero avx2_permute_consts avx2_gather_consts K pssm pads q a b old = Ok sub /\
+      sse2_rows_into F32.add F32.zero 32 pssm q a b old = Ok sub /\
+      dispatch_rows_into F32.add F32.zero dispatch_score_f32 avx2_permute_consts avx2_gather_consts
+                         K pssm pads ar q a b old = Ok sub.
+Proof.
+  intros K pssm pads s q ar a b old HK Hs Hp Hst Hw HM Hwrap HL Hab Hb.
+  destruct (C01_score_rows_sub f32 F32.add F32.zero 32 K pssm s q a b old ltac:(lia) HK Hs Hp Hst HM Hwrap HL Hab Hb)
+    as [full [sub [E1 [E2 [E3 E4]]]]].
+  exists full, sub. repeat split; auto.
+  - eapply res_equiv_eq_ok; [apply (C01_score_avx2_eq f32 F32.add F32.zero K pssm pads s q a b old); auto|exact E2].
+  - eapply res_equiv_eq_ok; [apply (C01_score_sse2_eq_f32 32 K pssm s q a b old); auto; lia|exact E2].
+  - eapply res_equiv_eq_ok; [apply (C01_score_dispatch_eq_f32 K pssm pads s q ar a b old); auto|exact E2].
+Qed.
+
+(* L < M: every backend returns an empty result (no rows, max_index = 0) *)
+Theorem C01_backends_short_sequence :
+  forall (K : nat) (pssm : list (list f32)) (pads : nat -> list f32) (s : list nat) (q : sseq) (ar : arm)
+         (a b : nat) (old : sscores f32),
+    0 < K -> Forall (fun x => x < K) s -> pssm_wf K pssm ->
+    Striped 32 (K - 1) s q -> sc_wf 32 old ->
+    1 <= length pssm -> length pssm - 1 <= sq_wrap q -> length s < length pssm ->
+    generic_rows_into F32.add F32.zero 32 pssm q a b old = Ok (mkScores [] 0) /\
+    avx2_rows_into F32.add F32.zero avx2_permute_consts avx2_gather_consts K pssm pads q a b old = Ok (mkScores [] 0) /\
+    sse2_rows_into F32.add F32.zero 32 pssm q a b old = Ok (mkScores [] 0) /\
+    dispatch_rows_into F32.add F32.zero dispatch_score_f32 avx2_permute_consts avx2_gather_consts
+                       K pssm pads ar q a b old = Ok (mkScores [] 0).
+Proof.
+  intros K pssm pads s q ar a b old HK Hs Hp Hst Hw HM Hwrap HL.
+  assert (E : generic_rows_into F32.add F32.zero 32 pssm q a b old = Ok (mkScores [] 0)).
+  { apply generic_rows_into_empty. left. destruct Hst as [Hlen _]. rewrite Hlen. exact HL. }
+  repeat split; auto.
+  - eapply res_equiv_eq_ok; [apply (C01_score_avx2_eq f32 F32.add F32.zero K pssm pads s q a b old); auto|exact E].
+  - eapply res_equiv_eq_ok; [apply (C01_score_sse2_eq_f32 32 K pssm s q a b old); auto; lia|exact E].
+  - eapply res_equiv_eq_ok; [apply (C01_score_dispatch_eq_f32 K pssm pads s q ar a b old); auto|exact E].
+Qed.
+
+(* the wrapper guard: a sequence with fewer than M - 1 look-ahead rows is rejected by the
+   SIMD wrappers before any load (the kernels read rows i .. i+M-1 through raw pointers) *)
+Theorem C01_simd_guard_unconfigured :
+  forall (T : Type) (add : T -> T -> T) (zero : T) (K C : nat)
+         (pssm : list (list T)) (pads : nat -> list T) (q : sseq) (a b : nat) (old : sscores T),
+    1 <= length pssm -> sq_wrap q < length pssm - 1 ->
+    avx2_rows_into add zero avx2_permute_consts avx2_gather_consts K pssm pads q a b old = Panic 31 /\
+    sse2_rows_into add zero C pssm q a b old = Panic 31.
+Proof.
+  intros T add zero K C pssm pads q a b old HM Hw. split.
+  - unfold avx2_rows_into, avx2_permute_rows_into, avx2_gather_rows_into.
+    destruct (K <=? 8); apply simd_guard_unconfigured; auto.
+  - unfold sse2_rows_into. apply simd_guard_unconfigured; auto.
+Qed.
+
+(* 16- and 32-column layouts: in both, the generic and the SSE2 pipelines return the same
+   matrix, and unstripe() lists the defined scores of positions 0 .. L-M in order *)
+Theorem C01_score_layouts_16_32 :
+  forall (C K : nat) (pssm : list (list f32)) (s : list nat) (q : sseq),
+    C = 16 \/ C = 32 ->
+    0 < K -> Forall (fun x => x < K) s -> pssm_wf K pssm ->
+    Striped C (K - 1) s q ->
+    1 <= length pssm -> length pssm - 1 <= sq_wrap q ->
+    res_equiv (score_with (sse2_rows_into F32.add F32.zero C pssm) q)
+              (generic_score F32.add F32.zero C pssm q) /\
+    rbind (generic_score F32.add F32.zero C pssm q) (sc_unstripe C) =
+    Ok (map (score_def F32.add F32.zero (K - 1) pssm s) (seq 0 (length s + 1 - length pssm))).
+Proof.
+  intros C K pssm s q HC HK Hs Hp Hst HM Hwrap.
+  assert (HC0 : 0 < C /\ C mod 16 = 0) by (destruct HC; subst; split; auto; lia).
+  destruct HC0 as [HC0 HC16]. split.
+  - unfold generic_score. apply score_with_equiv. intros a b.
+    apply (C01_score_sse2_eq_f32 C K pssm s q a b sc_empty); auto. apply sc_wf_empty.
+  - apply (C01_score_unstripe f32 F32.add F32.zero C K pssm s q); auto.
+Qed.
+
+(* ====================================================================== *)
+(* IEEE-754 binary32 facts (Flocq) *)
+
+(* as soon as one term is -inf the sum is -inf, when no later term is +inf / NaN and the
+   partial sum before it has not become +inf / NaN *)
+Theorem C01_neg_inf_absorbs :
+  forall l1 l2 : list f32,
+    no_pinf_nan (fold_left F32.add l1 F32.zero) -> Forall no_pinf_nan l2 ->
+    fold_left F32.add (l1 ++ F32.ninf :: l2) F32.zero = F32.ninf.
+Proof. exact neg_inf_absorbs. Qed.
+
+(* summation error: no intermediate overflow =>
+   | fl(sum) - sum | <= ((1 + u)^n - 1) * sum |t_j|,  u = 2^-24 *)
+Theorem C01_fsum_error_bound :
+  forall l : list f32,
+    sums_finite F32.zero l = true ->
+    (Rabs (B2R (fold_left F32.add l F32.zero) - rsum l) <=
+     ((1 + bpow radix2 (-24)) ^ (length l) - 1) * rabs_sum l)%R.
+Proof. exact fsum_error_bound. Qed.
+
+(* a computable sufficient condition for "no intermediate overflow" *)
+Theorem C01_no_intermediate_overflow :
+  forall l : list f32,
+    (Z.of_nat (length l) <= 2 ^ 23)%Z ->
+    Forall (fun x => BinarySingleNaN.is_finite x = true) l ->
+    (rabs_sum l <= bpow radix2 126)%R ->
+    sums_finite F32.zero l = true.
+Proof. exact sums_finite_bound. Qed.
+
+(* the defined binary32 score (left-to-right sum from +0.0 of at most 2^23 cells) meets the
+   property: -inf as soon as one term is, otherwise finite and within n * 2^-23 * sum|t_j| of
+   the exact sum -- for matrices without +inf / NaN cells and sum|t_j| < 2^126 *)
+Theorem C01_defined_sum_holds :
+  forall terms : list f32,
+    (Z.of_nat (length terms) <= 2 ^ 23)%Z -> Holds_value terms (fold_left F32.add terms F32.zero).
+Proof. exact defined_sum_holds. Qed.
+
+(* the executable checker used by the driver for PROPFAIL is sound for [Holds_C01] *)
+Theorem check_C01_sound :
+  forall (N : nat) (pssm : list (list f32)) (s : list nat) (vals : list f32),
+    check_C01 N pssm s vals = true -> Holds_C01 N pssm s vals.
+Proof. exact check_values_sound. Qed.
+
+(* ... and never rejects what the model computes (no false alarm on the model; the model is
+   compared with the implementation bit for bit on every run) *)
+Theorem C01_model_passes_checker :
+  forall (N : nat) (pssm : list (list f32)) (s : list nat),
+    (Z.of_nat (length pssm) <= 2 ^ 23)%Z ->
+    check_C01 N pssm s (map (score_def F32.add F32.zero N pssm s) (seq 0 (length s + 1 - length pssm))) = true.
+Proof. exact model_passes_C01. Qed.
+
+(* end to end: the values every backend returns for a configured striped sequence are exactly
+   L - M + 1 in number (none when L < M) and each meets the property on real numbers *)
+Theorem C01_scan_values_hold :
+  forall (C K : nat) (pssm : list (list f32)) (s : list nat) (q : sseq),
+    0 < C -> 0 < K -> Forall (fun x => x < K) s -> pssm_wf K pssm ->
+    Striped C (K - 1) s q ->
+    1 <= length pssm -> length pssm - 1 <= sq_wrap q -> (Z.of_nat (length pssm) <= 2 ^ 23)%Z ->
+    exists vals,
+      rbind (generic_score F32.add F32.zero C pssm q) (sc_unstripe C) = Ok vals /\
+      Holds_C01 (K - 1) pssm s vals.
+Proof.
+  intros C K pssm s q HC HK Hs Hp Hst HM Hwrap HM23.
+  eexists. split; [apply (C01_score_unstripe f32 F32.add F32.zero C K pssm s q); auto|].
+  unfold Holds_C01. rewrite map_length, seq_length. split; [reflexivity|].
+  intros i Hi. rewrite (map_nth_in _ _ _ 0) by (rewrite seq_length; auto).
+  rewrite seq_nth by auto. cbn [Nat.add].
+  apply defined_sum_holds. unfold f32_terms, score_terms.
+  rewrite (terms_from_length F32.zero). exact HM23.
+Qed.
+
+(* ====================================================================== *)
+(* Composition with the striping model of property C04 (coq/stripe): the hypothesis
+   [Striped] is discharged for the state reached by ANY history of stripe / stripe_into /
+   configure / configure_wrap calls (any pipelines that exist for C) starting from
+   StripedSequence::default().  s = the sequence striped last; the history must have left
+   at least M - 1 look-ahead rows (e.g. by a final configure(&pssm)). *)
+
+Theorem C01_history_scan :
+  forall (T : Type) (add : T -> T -> T) (zero : T) (K C : nat)
+         (ops : list LMStripe.StripeAvx2.op) (pssm : list (list T)),
+    0 < C -> 0 < K -> forallb (LMStripe.StripeAvx2.op_typed C) ops = true ->
+    Forall (fun x => x < K) (LMStripe.StripeAvx2.last_seq [] ops) ->
+    pssm_wf K pssm -> 1 <= length pssm ->
+    length pssm - 1 <= LMStripe.StripeAvx2.wrap_after 0 ops ->
+    exists st,
+      LMStripe.StripeAvx2.run K C LMStripe.StripeModel.s_default ops = Ok st /\
+      rbind (generic_score add zero C pssm (of_stripe st)) (sc_unstripe C) =
+      Ok (map (score_def add zero (K - 1) pssm (LMStripe.StripeAvx2.last_seq [] ops))
+              (seq 0 (length (LMStripe.StripeAvx2.last_seq [] ops) + 1 - length pssm))).
+Proof.
+  intros T add zero K C ops pssm HC HK Ht Hs Hp HM Hw.
+  destruct (history_striped K C ops HC Ht) as [st [Hrun [Hst Hwrap]]].
+  exists st. split; [exact Hrun|].
+  apply (C01_score_unstripe T add zero C K pssm _ (of_stripe st)); auto.
+  rewrite Hwrap. exact Hw.
+Qed.
+
+Theorem C01_history_backends :
+  forall (K : nat) (ops : list LMStripe.StripeAvx2.op) (pssm : list (list f32))
+         (pads : nat -> list f32) (ar : arm),
+    0 < K -> forallb (LMStripe.StripeAvx2.op_typed 32) ops = true ->
+    Forall (fun x => x < K) (LMStripe.StripeAvx2.last_seq [] ops) ->
+    pssm_wf K pssm -> 1 <= length pssm ->
+    length pssm - 1 <= LMStripe.StripeAvx2.wrap_after 0 ops ->
+    length pssm <= length (LMStripe.StripeAvx2.last_seq [] ops) ->
+    exists st sc,
+      LMStripe.StripeAvx2.run K 32 LMStripe.StripeModel.s_default ops = Ok st /\
+      generic_score F32.add F32.zero 32 pssm (of_stripe st) = Ok sc /\
+      score_with (avx2_rows_into F32.add F32.zero avx2_permute_consts avx2_gather_consts K pssm pads)
+                 (of_stripe st) = Ok sc /\
+      score_with (sse2_rows_into F32.add F32.zero 32 pssm) (of_stripe st) = Ok sc /\
+      score_with (dispatch_rows_into F32.add F32.zero dispatch_score_f32 avx2_permute_consts
+                                     avx2_gather_consts K pssm pads ar) (of_stripe st) = Ok sc /\
+      rbind (Ok sc) (sc_unstripe 32) =
+      Ok (map (score_def F32.add F32.zero (K - 1) pssm (LMStripe.StripeAvx2.last_seq [] ops))
+              (seq 0 (length (LMStripe.StripeAvx2.last_seq [] ops) + 1 - length pssm))).
+Proof.
+  intros K ops pssm pads ar HK Ht Hs Hp HM Hw HL.
+  destruct (history_striped K 32 ops ltac:(lia) Ht) as [st [Hrun [Hst Hwrap]]].
+  rewrite <- Hwrap in Hw.
+  destruct (C01_backends_full_scan K pssm pads _ (of_stripe st) ar HK Hs Hp Hst HM Hw HL)
+    as [sc [E1 [E2 [E3 [E4 _]]]]].
+  exists st, sc. repeat split; auto.
+  rewrite <- E1.
+  apply (C01_score_unstripe f32 F32.add F32.zero 32 K pssm _ (of_stripe st)); auto. lia.
+Qed.
+
+(* ====================================================================== *)
+(* statement pins *)
+
+Check C01_score_avx2_eq :
+  forall (T : Type) (add : T -> T -> T) (zero : T) (K : nat)
+         (pssm : list (list T)) (pads : nat -> list T) (s : list nat) (q : sseq)
+         (a b : nat) (old : sscores T),
+    0 < K -> Forall (fun x => x < K) s -> pssm_wf K pssm ->
+    Striped 32 (K - 1) s q -> sc_wf 32 old ->
+    1 <= length pssm -> length pssm - 1 <= sq_wrap q ->
+    res_equiv (avx2_rows_into add zero avx2_permute_consts avx2_gather_consts K pssm pads q a b old)
+              (generic_rows_into add zero 32 pssm q a b old).
+
+Check C01_score_sse2_eq_f32 :
+  forall (C K : nat) (pssm : list (list f32)) (s : list nat) (q : sseq) (a b : nat) (old : sscores f32),
+    0 < C -> C mod 16 = 0 ->
+    0 < K -> Forall (fun x => x < K) s -> pssm_wf K pssm ->
+    Striped C (K - 1) s q -> sc_wf C old ->
+    1 <= length pssm -> length pssm - 1 <= sq_wrap q ->
+    res_equiv (sse2_rows_into F32.add F32.zero C pssm q a b old)
+              (generic_rows_into F32.add F32.zero C pssm q a b old).
+
+Check C01_score_unstripe :
+  forall (T : Type) (add : T -> T -> T) (zero : T) (C K : nat)
+         (pssm : list (list T)) (s : list nat) (q : sseq),
+    0 < C -> 0 < K -> Forall (fun x => x < K) s -> pssm_wf K pssm ->
+    Striped C (K - 1) s q ->
+    1 <= length pssm -> length pssm - 1 <= sq_wrap q ->
+    rbind (generic_score add zero C pssm q) (sc_unstripe C) =
+    Ok (map (score_def add zero (K - 1) pssm s) (seq 0 (length s + 1 - length pssm))).
+
+Check C01_fsum_error_bound :
+  forall l : list f32,
+    sums_finite F32.zero l = true ->
+    (Rabs (B2R (fold_left F32.add l F32.zero) - rsum l) <=
+     ((1 + bpow radix2 (-24)) ^ (length l) - 1) * rabs_sum l)%R.
+
+Check check_C01_sound :
+  forall (N : nat) (pssm : list (list f32)) (s : list nat) (vals : list f32),
+    check_C01 N pssm s vals = true -> Holds_C01 N pssm s vals.
+
+(* ====================================================================== *)
+(* non-vacuity *)
+
+(* [Striped] is satisfiable for every sequence, every column count and every wrap *)
+Example C01_striped_satisfiable :
+  forall (C K : nat) (s : list nat) (w : nat), Striped C (K - 1) s (stripe_of C (K - 1) s w).
+Proof. intros. apply stripe_of_striped. Qed.
+
+(* the README example (15-column motif, 64-nt sequence, DNA, 32 columns, configure()):
+   all hypotheses of the theorems above hold ... *)
+Example C01_readme_hypotheses :
+  0 < 5 /\ Forall (fun x => x < 5) readme_seq /\ pssm_wf 5 readme_pssm /\
+  Striped 32 (5 - 1) readme_seq (stripe_of 32 4 readme_seq 14) /\
+  sc_wf 32 (@sc_empty f32) /\
+  1 <= length readme_pssm /\ length readme_pssm - 1 <= sq_wrap (stripe_of 32 4 readme_seq 14) /\
+  length readme_pssm <= length readme_seq /\ (Z.of_nat (length readme_pssm) <= 2 ^ 23)%Z.
+Proof.
+  split; [lia|]. split; [unfold readme_seq; repeat constructor|].
+  split; [unfold readme_pssm, pssm_wf; cbn [map readme_pssm_bits]; repeat constructor|].
+  split; [apply (stripe_of_striped 32 5)|]. split; [apply sc_wf_empty|].
+  vm_compute. repeat split; try lia; discriminate.
+Qed.
+
+(* ... the first score is the value asserted in the README, -23.07094 = 0xc1b89149, on the
+   generic, AVX2 (permute) and SSE2 models, and position 50 = L - M + 1 is not a score *)
+Example C01_readme_scores :
+  let q := stripe_of 32 4 readme_seq 14 in
+  let bits (r : res (sscores f32)) i :=
+    rbind r (fun sc => rbind (sc_get sc i) (fun v => Ok (F32.to_bits v))) in
+  bits (generic_score F32.add F32.zero 32 readme_pssm q) 0 = Ok 0xc1b89149%Z /\
+  bits (score_with (avx2_rows_into F32.add F32.zero avx2_permute_consts avx2_gather_consts 5
+                                   readme_pssm (fun _ => [F32.nan; F32.nan; F32.nan])) q) 0 = Ok 0xc1b89149%Z /\
+  bits (score_with (sse2_rows_into F32.add F32.zero 32 readme_pssm) q) 0 = Ok 0xc1b89149%Z /\
+  rbind (rbind (generic_score F32.add F32.zero 32 readme_pssm q) (sc_unstripe 32))
+        (fun v => Ok (length v)) = Ok 50.
+Proof. vm_compute. repeat split; reflexivity. Qed.
+
+(* the checker accepts the defined scores of the README example and rejects a wrong count
+   and a perturbed value *)
+Example C01_readme_checker :
+  let vals := map (score_def F32.add F32.zero 4 readme_pssm readme_seq) (seq 0 50) in
+  check_C01 4 readme_pssm readme_seq vals = true /\
+  check_C01 4 readme_pssm readme_seq (tl vals) = false /\
+  check_C01 4 readme_pssm readme_seq (F32.of_bits 0xc1b8914b :: tl vals) = true /\
+  check_C01 4 readme_pssm readme_seq (F32.of_bits 0xc1b89249 :: tl vals) = false.
+Proof. vm_compute. repeat split; reflexivity. Qed.
+
+(* the premises of the IEEE theorems are satisfiable *)
+Example C01_ieee_premises :
+  sums_finite F32.zero [F32.of_bits 0x3fc00000; F32.of_bits 0xc0257006; F32.of_bits 0x3f5fdd34] = true /\
+  no_pinf_nan (fold_left F32.add [F32.of_bits 0x3fc00000] F32.zero) /\
+  classify [F32.of_bits 0x3fc00000; F32.ninf; F32.of_bits 0xc0257006] = HasNegInf.
+Proof. vm_compute. repeat split; try reflexivity; discriminate. Qed.
+
+(* the README calls as a history: to_striped() (dispatching pipeline) then configure(&pssm) *)
+Example C01_readme_history :
+  let ops := [LMStripe.StripeAvx2.OStripe (LMStripe.StripeAvx2.BDispatch LMStripe.NetModel.AAvx2) readme_seq;
+              LMStripe.StripeAvx2.OConfigure (length readme_pssm)] in
+  forallb (LMStripe.StripeAvx2.op_typed 32) ops = true /\
+  LMStripe.StripeAvx2.last_seq [] ops = readme_seq /\
+  length readme_pssm - 1 <= LMStripe.StripeAvx2.wrap_after 0 ops /\
+  length readme_pssm <= length (LMStripe.StripeAvx2.last_seq [] ops).
+Proof. vm_compute. repeat split; lia. Qed.
